@@ -15,6 +15,7 @@ import (
 	"time"
 
 	"github.com/cenkalti/backoff/v4"
+	"github.com/siderolabs/gen/optional"
 	"github.com/siderolabs/gen/xerrors"
 	"go.uber.org/zap"
 	"golang.org/x/sync/errgroup"
@@ -28,6 +29,7 @@ import (
 	"github.com/cosi-project/runtime/pkg/controller/runtime/metrics"
 	"github.com/cosi-project/runtime/pkg/logging"
 	"github.com/cosi-project/runtime/pkg/resource"
+	"github.com/cosi-project/runtime/pkg/state"
 	"github.com/cosi-project/runtime/pkg/state/owned"
 )
 
@@ -164,7 +166,7 @@ func (adapter *Adapter) Run(ctx context.Context) {
 				continue
 			}
 
-			if err := adapter.listPrimary(ctx, input.Namespace, input.Type); err != nil {
+			if err := adapter.listPrimary(ctx, input.Namespace, input.Type, input.ID); err != nil {
 				if errors.Is(err, context.Canceled) {
 					return nil
 				}
@@ -185,13 +187,33 @@ func (adapter *Adapter) Run(ctx context.Context) {
 	adapter.logger.Debug("controller finished")
 }
 
-func (adapter *Adapter) listPrimary(ctx context.Context, resourceNamespace resource.Namespace, resourceType resource.Type) error {
+func (adapter *Adapter) listPrimary(ctx context.Context, resourceNamespace resource.Namespace, resourceType resource.Type, resourceID optional.Optional[resource.ID]) error {
 	backoff := backoff.NewExponentialBackOff()
 	backoff.MaxElapsedTime = 0
 
 	for {
 		// use StateAdapter.List here, so that if the resource is cached, it would be listed from the cache
-		items, err := adapter.List(ctx, resource.NewMetadata(resourceNamespace, resourceType, "", resource.VersionUndefined))
+		var (
+			items resource.List
+			err   error
+		)
+
+		if id, byID := resourceID.Get(); byID {
+			// the input is declared for a single resource, so only that resource can be (and may be) read
+			var item resource.Resource
+
+			item, err = adapter.Get(ctx, resource.NewMetadata(resourceNamespace, resourceType, id, resource.VersionUndefined))
+
+			switch {
+			case err == nil:
+				items.Items = append(items.Items, item)
+			case state.IsNotFoundError(err):
+				err = nil
+			}
+		} else {
+			items, err = adapter.List(ctx, resource.NewMetadata(resourceNamespace, resourceType, "", resource.VersionUndefined))
+		}
+
 		if err != nil {
 			if errors.Is(err, context.Canceled) {
 				return err
